@@ -48,6 +48,27 @@ func RunC13Sweep(p *Plan, env *Env) *RunResult {
 		j := r.Intn(i + 1)
 		order[i], order[j] = order[j], order[i]
 	}
+	// per kind, the statement with the most yield points first: the rarely
+	// taken branches (root splits, catalog growth) are the long ones
+	best := map[string]int{}
+	for _, i := range order {
+		k := p.Stmts[i].Kind
+		if b, ok := best[k]; !ok || counts[i] > counts[b] {
+			best[k] = i
+		}
+	}
+	var front []int
+	for _, i := range order {
+		if best[p.Stmts[i].Kind] == i {
+			front = append(front, i)
+		}
+	}
+	for _, i := range order {
+		if best[p.Stmts[i].Kind] != i {
+			front = append(front, i)
+		}
+	}
+	order = front
 	for _, i := range order {
 		if budget <= 0 {
 			break
